@@ -798,6 +798,29 @@ def split_stream_kind(a):
     return a, 'bytesio'
 
 
+def _read_late(objs, item):
+    """the fields of Relocation objects handed out earlier, read now"""
+    out = []
+    for r in objs:
+        try:
+            out.append(item(r))
+        except Exception as e:      # noqa: every exception class is an observation
+            out.append(['err', type(e).__name__])
+    return out
+
+
+def _late_anomaly(held, given, item, close):
+    """A returned entry is an answer already given: the objects in held (whose fields read `given` when they were
+    handed out, or were never looked at) must read the same after the stream is closed.  [] when they do, else one
+    extra element for the implementation's answer (which then differs from the reference)."""
+    try:
+        close()
+    except Exception as e:          # noqa
+        return [['close-failed', type(e).__name__]]
+    late = _read_late(held, item)
+    return [] if late == given else [['read-after-close-differs', late]]
+
+
 def _table_result(tab):
     return [bool(tab.is_RELA()), tab.num_relocations(), [entry_items(r) for r in tab.iter_relocations()]]
 
@@ -1103,9 +1126,13 @@ def _eval_table(ctx, w, b1, b2):
             tab = RelocationTable(elf, w.offs[2], w.size, rela)
         res = _table_result(tab)
         # random access agrees with iteration
-        for i in range(len(ents)):
-            assert entry_items(tab.get_relocation(i)) == res[2][i]
-        return ok(res)
+        got = [entry_items(tab.get_relocation(i)) for i in range(len(ents))]
+        if got != res[2]:
+            res.append(['get-differs-from-iteration', got])
+        # entries collected first and looked at only after the file is closed ("with open(...)" idiom), through
+        # iteration and through get_relocation
+        held = list(tab.iter_relocations()) + [tab.get_relocation(i) for i in range(tab.num_relocations())]
+        return ok(res + _late_anomaly(held, res[2] + res[2], entry_items, elf.stream.close))
     impl = impl_call(run)
     m = b2[w.h_model]
     model = ok([int(rela), b2[w.h_num], m[1]]) if m[0] == 'ok' else m
@@ -1130,11 +1157,22 @@ def _relr_table(img, off, size, le, is64, entsize, sk='bytesio'):
     return RelrRelocationTable(fe, off, size, entsize)
 
 
-def run_history(tab, hist, item):
+def run_history(tab, hist, item, close=None):
     """perform the calls of hist on the one table object tab; one answer per call, in the driver's shape.
-    An exception ends the call that raised it, not the history."""
+    An exception ends the call that raised it, not the history.  With close: every Relocation object the history
+    handed out is kept and read again after the stream has been closed (an extra element in the answers if any
+    reads differently by then)."""
     gens = []
     out = []
+    held, given = [], []
+    def keep(r):
+        v = item(r)
+        held.append(r)
+        given.append(v)
+        return v
+    def keep_all(it):
+        objs = list(it)             # collected first, looked at afterwards
+        return [keep(r) for r in objs]
     for op in hist:
         t = op[0]
         try:
@@ -1146,10 +1184,10 @@ def run_history(tab, hist, item):
                 if op[2] == 'for':
                     a = 'stop'
                     for r in g:
-                        a = ['item', item(r)]
+                        a = ['item', keep(r)]
                         break
                 else:
-                    a = ['item', item(next(g))]
+                    a = ['item', keep(next(g))]
             elif t == 'close':
                 if op[2] == 'del':
                     gens[op[1]] = None        # last reference dropped: CPython finalises the generator now
@@ -1159,14 +1197,21 @@ def run_history(tab, hist, item):
             elif t == 'num':
                 a = ['int', tab.num_relocations()]
             elif t == 'get':
-                a = ['item', item(tab.get_relocation(op[1]))]
+                a = ['item', keep(tab.get_relocation(op[1]))]
             else:
-                a = ['list', [item(r) for r in tab.iter_relocations()]]
+                a = ['list', keep_all(tab.iter_relocations())]
         except StopIteration:
             a = 'stop'
         except Exception as e:      # noqa: every exception class is an observation
             a = ['err', type(e).__name__]
         out.append(a)
+    if close is not None:
+        try:
+            fresh = list(tab.iter_relocations())                 # objects nobody looks at before the close
+            twin = [item(r) for r in tab.iter_relocations()]     # what they must read (a walk of its own)
+        except Exception:           # noqa: reported by the history itself where it matters
+            fresh, twin = [], []
+        out += _late_anomaly(held + fresh, given + twin, item, close)
     return out
 
 
@@ -1187,11 +1232,13 @@ def _eval_relr_hist(ctx, w, b1, b2):
     wsz = 8 if is64 else 4
     def run():
         if via == 'section':
-            tab = _open(w.img, w.sk).get_section_by_name('.relr.dyn')
-            assert type(tab).__name__ == 'RelrRelocationSection'
+            elf = _open(w.img, w.sk)
+            tab = elf.get_section_by_name('.relr.dyn')
+            close = elf.stream.close
         else:
             tab = _relr_table(w.img, w.off, len(ws) * wsz, le, is64, wsz, w.sk)
-        return ok(run_history(tab, hist, lambda r: r['r_offset']))
+            close = tab._elffile.stream.close
+        return ok(run_history(tab, hist, lambda r: r['r_offset'], close))
     impl = impl_call(run)
     wf, noov = b1[w.h_wf]
     lead_bitmap = bool(ws) and ws[0] & 1 == 1
@@ -1211,7 +1258,7 @@ def _eval_rel_hist(ctx, w, b1, b2):
             assert type(tab).__name__ == 'RelocationSection'
         else:
             tab = RelocationTable(elf, w.offs[2], w.size, rela)
-        return ok(run_history(tab, hist, entry_items))
+        return ok(run_history(tab, hist, entry_items, elf.stream.close))
     impl = impl_call(run)
     _hist_bumps(ctx, hist)
     ctx.record('rel_hist', w.full, impl=impl, spec=ok(b1[w.h_spec]), model=ok(b2[w.h_model]),
@@ -1222,14 +1269,20 @@ def _eval_relr(ctx, w, b1, b2):
     le, is64, ws, via, entsize = w.a
     def run():
         if via == 'section':
-            sec = _open(w.img, w.sk).get_section_by_name('.relr.dyn')
-            assert type(sec).__name__ == 'RelrRelocationSection'
+            elf = _open(w.img, w.sk)
+            sec = elf.get_section_by_name('.relr.dyn')
+            close = elf.stream.close
         else:
             sec = _relr_table(w.img, w.off, len(ws) * (8 if is64 else 4), le, is64, entsize, w.sk)
+            close = sec._elffile.stream.close
         offs = [r['r_offset'] for r in sec.iter_relocations()]
-        assert sec.num_relocations() == len(offs)
-        assert [sec.get_relocation(i)['r_offset'] for i in range(len(offs))] == offs
-        return ok(offs)
+        extra = []
+        n = sec.num_relocations()
+        got = [sec.get_relocation(i)['r_offset'] for i in range(n)]
+        if n != len(offs) or got != offs:
+            extra.append(['num-or-get-differs-from-iteration', n, got])
+        held = list(sec.iter_relocations()) + [sec.get_relocation(i) for i in range(n)]
+        return ok(offs + extra + _late_anomaly(held, offs + offs, lambda r: r['r_offset'], close))
     impl = impl_call(run)
     spec = b1[w.h_spec]
     wf, noov = b1[w.h_wf]
@@ -1531,6 +1584,7 @@ def _dyn_run(img, via, order, sk='bytesio'):
         dyn = elf.get_section_by_name('.dynamic')
         assert isinstance(dyn, DynamicSection)
     out = []
+    held = []
     for k, t in dyn.get_relocation_tables().items():
         # a client that peeks at the first entries and stops (suspended or closed walk) before the table is
         # read: by C08_relr_history_exact / C08_rel_history_exact this changes no answer
@@ -1545,13 +1599,26 @@ def _dyn_run(img, via, order, sk='bytesio'):
         if k == 'RELR':
             n = t.num_relocations()
             offs = [r['r_offset'] for r in t.iter_relocations()]
-            assert n == len(offs) and [t.get_relocation(i)['r_offset'] for i in range(n)] == offs
-            out.append([k, 'relr', offs])
+            got = [t.get_relocation(i)['r_offset'] for i in range(n)]
+            row = [k, 'relr', offs]
+            if n != len(offs) or got != offs:
+                row.append(['num-or-get-differs-from-iteration', n, got])
+            held.append((row, list(t.iter_relocations()), offs, lambda r: r['r_offset']))
         else:
             res = _table_result(t)
             # random access agrees with iteration, entry for entry
-            assert [entry_items(t.get_relocation(i)) for i in range(res[1])] == res[2]
-            out.append([k] + res)
+            got = [entry_items(t.get_relocation(i)) for i in range(res[1])]
+            row = [k] + res
+            if got != res[2]:
+                row.append(['get-differs-from-iteration', got])
+            held.append((row, list(t.iter_relocations()), res[2], entry_items))
+        out.append(row)
+    # the entries of every table, collected above and not yet looked at, read after the file is closed
+    elf.stream.close()
+    for row, objs, given, item in held:
+        late = _read_late(objs, item)
+        if late != given:
+            row.append(['read-after-close-differs', late])
     return ok(out)
 
 
